@@ -6,7 +6,7 @@ CONFIG = {
         "files": ["ledger/eval/zz_verif_c18_test.go", "ledger/eval/zz_verif_c21_test.go"],
         "util": [("ledger/eval", "eval")],
         "env": {"quick": {"VERIF_C21_UNIVERSES": 90, "VERIF_C21_BLOCKS": 8, "VERIF_C21_GROUPS": 10},
-                "thorough": {"VERIF_C21_UNIVERSES": 3000, "VERIF_C21_BLOCKS": 10, "VERIF_C21_GROUPS": 12}},
+                "thorough": {"VERIF_C21_UNIVERSES": 2400, "VERIF_C21_BLOCKS": 10, "VERIF_C21_GROUPS": 12}},
         "timeout": {"quick": 600, "thorough": 3000},
     }],
     "rule": "one case = one block of the real BlockEvaluator over a closed 9-account ledger whose accounts include one at its minimum balance and one "
